@@ -183,6 +183,11 @@ func retentionTable(w *World, r *Report) (ro *Roles, dec *ssa.Function, decCall 
 
 func checkC12(w *World, r *Report) {
 	ro, dec, decCall, info := retentionTable(w, r)
+	// (7) "no longer defined" is judged against the definitions of the last reload: the reload installs exactly what it was
+	// given (a definition carried over from the old set keeps a removed pipeline listed and its jobs and logs for ever)
+	if ro != nil && ro.la != nil {
+		ro.reloadModset(r, "reload-effects")
+	}
 	// (5) every stored job is registered at start-up: only a registered job can later be removed with its logs
 	if lf, mc := loadAnchors(w); lf != nil {
 		loadEveryJob(w, r, "load.every-stored-job", lf, mc)
